@@ -209,6 +209,14 @@ class LayoutExtractor:
             raise AnalysisError('length expression too deep in %s' % c.name)
         if isinstance(e, ast.Constant) and isinstance(e.value, int):
             return Affine.c(e.value)
+        if isinstance(e, ast.Attribute) and e.attr == 'size':
+            # S.size of a struct.Struct constant (``self.header.size``, a module-level Struct)
+            sv = self.struct_of(e.value, c)
+            if sv is None:
+                v0 = self.repo.try_fold(e.value, c.module, c)
+                sv = v0 if isinstance(v0, StructVal) else None
+            if sv is not None:
+                return Affine.c(sv.size)
         if isinstance(e, ast.BinOp) and isinstance(e.op, (ast.Add, ast.Sub)):
             a = self.aff_enc(e.left, c, locs, depth + 1)
             b = self.aff_enc(e.right, c, locs, depth + 1)
